@@ -404,6 +404,22 @@ func (g *genState) scriptReplayAfterSetChange() {
 	again()
 }
 
+// scriptBurst: one keyper fills a block with block-seen reports of increasing numbers (each changes the state)
+func (g *genState) scriptBurst(n int) {
+	if g.aim == nil {
+		return
+	}
+	last := g.aim.App.Configs[len(g.aim.App.Configs)-1]
+	if len(last.Keypers) == 0 {
+		return
+	}
+	k := last.Keypers[g.r.Intn(len(last.Keypers))]
+	base := last.ActivationBlockNumber + uint64(g.r.Intn(3))
+	for i := 0; i < n; i++ {
+		g.script = append(g.script, &TxSpec{Signer: g.signerOf(k), Chain: g.chain, Nonce: g.freshNonce(), P: Payload{Kind: "bs", A: base + uint64(i)}})
+	}
+}
+
 // scriptRestart: failure reports for the newest or an older eon by the keypers of its configuration
 func (g *genState) scriptRestart() {
 	if g.aim == nil || len(g.aim.App.DKGMap) == 0 {
@@ -509,6 +525,8 @@ func GenHistory(r *hx.Rand, u *Universe, p GenParams) []*Op {
 				g.scriptRestart()
 			case k < 26:
 				g.scriptReplayAfterSetChange()
+			case k < 31:
+				g.scriptBurst(p.TxPerBlock)
 			}
 		}
 		ntx := r.Intn(p.TxPerBlock + 1)
